@@ -97,6 +97,22 @@ func (f *Frame) appendOp(c *ssa.CallCommon, args []*Value) *Value {
 		srcArr, srcOff = sel(E, app("sarr", t.T)), app("soff", t.T)
 	}
 	ln, cp, off, ar := app("slen", s.T), app("scap", s.T), app("soff", s.T), app("sarr", s.T)
+	// fast path: append(s, x) with a single element (the varargs array [1]T built by the compiler)
+	if m := litSliceRe.FindStringSubmatch(t.T); m != nil && m[3] == "1" {
+		elem := sel(sel(E, m[1]), m[2])
+		newLen := e.define("app.len", sInt, app("+", ln, "1"))
+		inplace := e.define("app.inplace", sBool, and(app("<=", newLen, cp), not(eq(ar, "0"))))
+		na := e.allocRef(f.st, f.pc, f.id+".app.arr")
+		nc := e.declare("app.cap", sInt)
+		e.assume("true", app(">=", nc, newLen))
+		grown := e.declare("app.grown", arrSort(es))
+		e.assume("true", fmt.Sprintf("(forall ((k Int)) (! (=> (and (<= 0 k) (< k %s)) (= (select %s k) (select %s (idx %s k)))) :pattern ((select %s k))))",
+			ln, grown, sel(E, ar), s.T, grown))
+		e.assume("true", eq(sel(grown, ln), elem))
+		res := e.define("app.res", sSlice, ite(inplace, app("mk-slice", ar, off, newLen, cp), app("mk-slice", na, "0", newLen, nc)))
+		e.setComp(f.st, cn, ite(inplace, store(E, ar, store(sel(E, ar), app("idx", s.T, ln), elem)), store(E, na, grown)))
+		return term(res, sSlice, c.Args[0].Type())
+	}
 	newLen := e.define("app.len", sInt, app("+", ln, n))
 	inplace := e.define("app.inplace", sBool, and(app("<=", newLen, cp), not(eq(ar, "0"))))
 	noop := eq(n, "0")
@@ -107,8 +123,8 @@ func (f *Frame) appendOp(c *ssa.CallCommon, args []*Value) *Value {
 	nc := e.declare("app.cap", sInt)
 	e.assume("true", app(">=", nc, newLen))
 	grown := e.declare("app.grown", arrSort(es))
-	e.assume("true", fmt.Sprintf("(forall ((k Int)) (! (= (select %s k) (ite (< k %s) (select %s (+ %s k)) (select %s (+ %s (- k %s))))) :pattern ((select %s k))))",
-		grown, ln, sel(E, ar), off, srcArr, srcOff, ln, grown))
+	e.assume("true", fmt.Sprintf("(forall ((k Int)) (! (= (select %s k) (ite (< k %s) (select %s (idx %s k)) (select %s (+ %s (- k %s))))) :pattern ((select %s k))))",
+		grown, ln, sel(E, ar), s.T, srcArr, srcOff, ln, grown))
 	res := e.define("app.res", sSlice, ite(noop, s.T, ite(inplace, app("mk-slice", ar, off, newLen, cp), app("mk-slice", na, "0", newLen, nc))))
 	E2 := ite(noop, E, ite(inplace, store(E, ar, inArr), store(E, na, grown)))
 	e.setComp(f.st, cn, E2)
